@@ -514,6 +514,12 @@ class Interp:
             return self.to_vec(a)
         if name in ('np.sin', 'np.cos', 'np.sqrt'):
             return ({'np.sin': 'Sin', 'np.cos': 'Cos', 'np.sqrt': 'Sqrt'}[name], as_scalar(args[0]))
+        if name in ('np.mod', 'np.remainder') and len(args) == 2 and not kwargs:      # same function as the % operator on floats
+            return ('Mod', as_scalar(args[0]), as_scalar(args[1]))
+        if name == 'np.square' and len(args) == 1 and not kwargs:
+            return ('Sq', as_scalar(args[0]))
+        if name == 'np.negative' and len(args) == 1 and not kwargs:
+            return ('Neg', as_scalar(args[0]))
         if name == 'np.linalg.norm':
             v = self.to_vec(args[0])
             if not v.elems:
